@@ -301,6 +301,27 @@ def rule_y5(chk: Check) -> None:
                 f"`{norm(st)[:80]}` keeps a ProxyHandler in a container instead of building one per location: a second location with the same key is served by the first one's handler, with the wrong prefix / strip_prefix, so its requests reach the upstream under a different path",
                 fi.loc(st),
             )
+    # ... and the handler registered for a location is the one built for it in that iteration
+    g5 = build_cfg(chk.proj, fi)
+    d5 = Defs(g5)
+    for n5 in g5.nodes:
+        if n5.ast is None or n5.kind != "stmt":
+            continue
+        for c in calls(n5.ast):
+            mc = method_call(c)
+            if not (mc and mc[1] == "add_route" and len(c.args) >= 2):
+                continue
+            h = c.args[1]
+            base = h.value if isinstance(h, ast.Attribute) else h  # handler.handle -> handler
+            for _dn, le in (origins(d5, n5, base) if isinstance(base, ast.Name) else [(n5, base)]):
+                fresh = isinstance(le, ast.Call) and not (method_call(le) and method_call(le)[1] in ("get", "setdefault", "pop"))
+                if not fresh:
+                    oks = False
+                    chk.finding(
+                        "Y5", fi.key, f"handler-shared:{norm(le)[:50] if not isinstance(le, _Sel) else repr(le)}",
+                        f"the handler registered for a location can be `{norm(le) if not isinstance(le, _Sel) else repr(le)}`, one that was built for another location: it carries that location's prefix / strip_prefix / timeout, so requests are mapped or timed out by the wrong settings",
+                        n5.where(),
+                    )
     chk.ob("Y5", "each proxy location gets its own handler", oks)
     rr = chk.proj.func("server.router:Router.route")
     g = build_cfg(chk.proj, rr)
